@@ -105,6 +105,13 @@ class Interp:
             except ValueError:
                 pass
 
+    def run_ast(self, node, info, globs, args, kwargs=None):
+        """execute a FunctionDef located by file + qualified name (decorated functions whose raw object is not reachable)"""
+        self.inlined[info["qualname"]] = info
+        env = Env(globs=globs)
+        self.bind_params(node, env, list(args), dict(kwargs or {}))
+        return self.exec_body_as_function(node, env, info["qualname"])
+
     def bind_params(self, node, env, args, kwargs, selfv=None):
         a = node.args
         params = [p.arg for p in a.posonlyargs + a.args]
@@ -1007,6 +1014,8 @@ class Interp:
                 return Opaque("dtype")
             if name == "ndim":
                 return 1
+            if name == "encoding":
+                return obj.enc
             return BoundMethod(obj, ("arr", name))
         if isinstance(obj, SArr2):
             if name == "size":
